@@ -45,7 +45,7 @@ theorem item_nz (it : Item) (h : it.Ok) : NZ it.text := by
 /-- **one argument** (not the fourth): a new token whose string is the argument's text, whatever
     follows as long as that is nothing or starts with a NUL -/
 theorem scan_item (it : Item) (s : Sc) (hb : s.brk = false) (hq : s.quote = 0) (hp : s.prev = 0)
-    (hok : it.Ok) (hnn : it.NoNestedQuote) (hc : s.argc + 1 < argvLen) (hlen : s.argv.length = argvLen) :
+    (hok : it.Ok) (hc : s.argc + 1 < argvLen) (hlen : s.argv.length = argvLen) :
     ∃ p, After s (scan s it.render) (itemOut it) 0 (s.argc + 1) (s.argv.set s.argc (some p)) false ∧
       ∀ (x tail : List Byte), NulFirst x → cstr (s.out ++ itemOut it ++ x ++ 0 :: tail) p = it.text := by
   have hnz := item_nz it hok
@@ -60,7 +60,7 @@ theorem scan_item (it : Item) (s : Sc) (hb : s.brk = false) (hq : s.quote = 0) (
     · have := cstr_at s.out w (y ++ 0 :: tail) hnz
       simpa using this
   | quoted q str =>
-    obtain ⟨a, _⟩ := scan_quoted q str s hb hq hp hok.1 hok.2.1 hok.2.2 hnn hc
+    obtain ⟨a, _⟩ := scan_quoted q str s hb hq hp hok.1 hok.2.1 hok.2.2 hc
     refine ⟨s.out.length + 1, a, ?_⟩
     intro x tail _
     show cstr (s.out ++ (0 :: str ++ [0]) ++ x ++ 0 :: tail) (s.out.length + 1) = str
@@ -81,7 +81,7 @@ theorem blanks_isspace (sep : List Byte) (h : Blanks sep) : ∀ b ∈ sep, isspa
 /-- **the arguments after the command word**: every one becomes a token holding exactly its text -/
 theorem scan_args : ∀ (args : List (List Byte × Item)) (final : Option (List Byte × List Byte)) (s : Sc),
     s.brk = false → s.quote = 0 → s.argv.length = argvLen →
-    (∀ a ∈ args, Blanks a.1 ∧ a.2.Ok ∧ a.2.NoNestedQuote) → s.argc + args.length < argvLen →
+    (∀ a ∈ args, Blanks a.1 ∧ a.2.Ok) → s.argc + args.length < argvLen →
     (∀ f, final = some f → Blanks f.1 ∧ Word f.2) →
     ∃ x, (scan s (renderArgs args ++ finalR final)).out = s.out ++ x ∧ NulFirst x ∧
       (scan s (renderArgs args ++ finalR final)).argc = s.argc + (argTexts args final).length ∧
@@ -157,11 +157,11 @@ theorem scan_args : ∀ (args : List (List Byte × Item)) (final : Option (List 
           have := cstr_at (scan s sep).out t tail hwnz
           simpa using this
   | (sep, it) :: rest, final, s, hb, hq, hl, hargs, hc, hf => by
-    obtain ⟨hsep, hok, hnn⟩ := hargs (sep, it) (List.mem_cons_self ..)
+    obtain ⟨hsep, hok⟩ := hargs (sep, it) (List.mem_cons_self ..)
     simp only [List.length_cons] at hc
     obtain ⟨a1, p1⟩ := scan_blanks sep s hb hq hsep.1 (blanks_isspace sep hsep)
     have hl1 : (scan s sep).argv.length = argvLen := by rw [a1.argv]; exact hl
-    obtain ⟨p, a2, hcs⟩ := scan_item it (scan s sep) a1.brk a1.quote p1 hok hnn (by rw [a1.argc]; omega) hl1
+    obtain ⟨p, a2, hcs⟩ := scan_item it (scan s sep) a1.brk a1.quote p1 hok (by rw [a1.argc]; omega) hl1
     have hl2 : (scan (scan s sep) it.render).argv.length = argvLen := by rw [a2.argv, List.length_set]; exact hl1
     have hrun : renderArgs ((sep, it) :: rest) ++ finalR final = sep ++ (it.render ++ (renderArgs rest ++ finalR final)) := by
       simp [renderArgs]
